@@ -11,12 +11,13 @@ SHARD = 40
 THEOREMS = [
     "C13_iface_roundtrip_identity",
     "C13_class_roundtrip_identity",
-    "C13_implements_roundtrip_identity",
     "C13_implements_reduce_names_own_class",
+    "C13_implements_roundtrip_identity",
     "C13_empty_roundtrip_identity",
     "C13_provides_roundtrip_identity_live",
     "C13_provides_roundtrip_same_interfaces",
     "C13_provides_fresh_is_current",
+    "C13_provides_roundtrip_fresh_process",
     "C13_classprovides_roundtrip_same_interfaces",
     "C13_object_with_declaration_roundtrip",
     "C13_roundtrip_eq_hash",
